@@ -70,7 +70,7 @@ func (n *noopStore) ReleaseLease(ctx context.Context, lease Lease) error {
 }
 
 func (n *noopStore) LoadOffset(ctx context.Context, topic string, partition int32) (OffsetState, error) {
-	return OffsetState{Topic: topic, Partition: partition, Offset: 0}, nil
+	return OffsetState{Topic: topic, Partition: partition, Offset: -1}, nil
 }
 
 func (n *noopStore) CommitOffset(ctx context.Context, state OffsetState) error {
